@@ -41,7 +41,7 @@ def krylov_exp_impl(
     """
 
     initial_norm = v.norm()
-    v /= initial_norm
+    v = v / initial_norm  # not in place: the caller (and autograd) may still need v
 
     lanczos_vectors = [v]
     T = torch.zeros(max_krylov_dim + 2, max_krylov_dim + 2, dtype=v.dtype)
